@@ -45,6 +45,7 @@ namespace bxdecay0 {
 
   void Dy162low(i_random & prng_, event & event_, const int levelkev_)
   {
+    BXDECAY0_VERIF_SCOPE("scheme:Dy162low", levelkev_);
     // Subroutine describes the deexcitation process in Dy162 nucleus
     // after 2b-decay of Er162 to ground and excited 0+ and 2+ levels
     // of Dy162 (NNDC site on 04.02.2018, NDS 108(2007)1807).
